@@ -68,7 +68,7 @@ class PacketzQueue(JSONBase):
             )
         return keep
 
-    def _queue_healthy(self, q: IO[str] | None) -> bool:
+    def _queue_healthy(self, q: IO[str] | IO[bytes] | None) -> bool:
         if q is sys.stdin or q is sys.stdout:
             return False
         if q is None or q.closed:
@@ -114,18 +114,23 @@ class PacketzQueue(JSONBase):
         return packet
 
     def receive(self) -> Iterator[PacketLike]:
-        with self._ensure_open() as q:
+        # NOTE read bytes and decode one complete line at a time: a partial or
+        #   corrupt write can leave the file cut inside a multi-byte character,
+        #   and a text-mode reader would raise there, for good if more follows
+        with self.path.open("rb", buffering=1024 * 256) as q:
+            assert self._queue_healthy(q)
             q.seek(self._told)
 
-            while line := q.readline():
+            while raw := q.readline():
                 # If the line doesn't end with a newline, it's a partial write.
                 # Stop here and leave self._told right at the start of this line.
-                if not line.endswith("\n"):
+                if not raw.endswith(b"\n"):
                     break
 
                 self._told = max(q.tell(), self._told)
 
                 try:
+                    line = raw.decode("utf-8")
                     packet = unpack(line)
                 except (
                     BadPacketError,
